@@ -3,6 +3,8 @@
 package gnet
 
 import (
+	"reflect"
+	"unsafe"
 	"net"
 
 	"github.com/panjf2000/gnet/v2/internal/gfd"
@@ -119,7 +121,9 @@ func NewVerifLB(kind string, n int) *VerifLB {
 // SetRR sets the round-robin counter (to reach wrap-around states).
 func (v *VerifLB) SetRR(next uint64) {
 	if rr, ok := v.lb.(*roundRobinLoadBalancer); ok {
-		rr.nextIndex = next
+		// by reflection: whatever unsigned width the counter has (a narrower one takes the low bits)
+		f := reflect.ValueOf(rr).Elem().FieldByName("nextIndex")
+		reflect.NewAt(f.Type(), unsafe.Pointer(f.UnsafeAddr())).Elem().SetUint(next)
 	}
 }
 
